@@ -84,7 +84,7 @@ impl RunBuilder {
         out
     }
     pub fn deliver(&mut self, msg: u32, to: u32, now: i128) {
-        self.push(Op::Deliver { msg, to, now_ns: Ns(now), ticks: vec![], twin: false, control: None });
+        self.push(Op::Deliver { msg, to, now_ns: Ns(now), ticks: vec![], twin: false, control: None, key: None });
     }
     pub fn finish(self) -> Run {
         self.run
@@ -314,7 +314,7 @@ pub const RESERVED: [&str; 7] = ["iss", "sub", "aud", "exp", "nbf", "iat", "jti"
 pub fn gen_key(r: &mut Rng) -> String {
     loop {
         let k = match r.below(8) {
-            0 => r.pick(&["data", "role", "uid", "scope", "a", "b", "Exp", "EXP", "iss ", " sub", "aud\0", "exp2", "nb", "n", "x.y", "k\"q", "k\\b"]).to_string(),
+            0 => r.pick(&["data", "role", "uid", "scope", "a", "b", "Exp", "EXP", "iss ", " sub", "aud\0", "exp2", "nb", "n", "x.y", "k\"q", "k\\b", "a/b", "a~1b", "a~0b", "https://example.com/claims/seats", "/", "~", "0", "a/0"]).to_string(),
             1 => text!(r, 1 + r.usize(6)),
             _ => ascii!(r, 1 + r.usize(5)),
         };
@@ -436,9 +436,16 @@ pub fn exotic_style(r: &mut Rng, t: i128) -> civil::Style {
 }
 
 pub fn non_timestamp_value(r: &mut Rng) -> Value {
-    match r.below(12) {
+    non_timestamp_value_at(r, 1_900_000_000 * civil::NS)
+}
+
+/// values that are present, non-null and not an RFC 3339 string; numbers include plausible epoch
+/// seconds / milliseconds around `now` (a lenient reader must not take them for instants)
+pub fn non_timestamp_value_at(r: &mut Rng, now: i128) -> Value {
+    let secs = (now / civil::NS) as i64;
+    match r.below(20) {
         0 => json!(12345),
-        1 => json!(1_700_000_000u64),
+        1 => json!(secs - 3600),
         2 => json!(true),
         3 => json!(false),
         4 => json!([1]),
@@ -448,7 +455,42 @@ pub fn non_timestamp_value(r: &mut Rng) -> Value {
         8 => json!("tomorrow"),
         9 => json!("2030-01-01"),
         10 => json!(1.5),
+        11 => json!(secs + 3600),
+        12 => json!(secs + 86_400 * 365),
+        13 => json!(4_102_444_800i64),
+        14 => json!(253_402_300_799i64),
+        15 => json!((secs + 3600) * 1000),
+        16 => json!((secs + 3600) as f64 + 0.5),
+        17 => json!(-1),
+        18 => json!({"exp": "2999-01-01T00:00:00Z"}),
         _ => Value::String(ascii!(r, 1 + r.usize(12))),
+    }
+}
+
+/// Timestamp look-alikes that are NOT valid RFC 3339 (several are valid ISO 8601): a lenient reader
+/// would take them for instants.  `t` is the instant they would denote.
+pub fn near_miss_timestamp(r: &mut Rng, t: i128) -> String {
+    let t = t - t.rem_euclid(civil::NS);
+    let z = civil::render(t, civil::Style::canonical_z()); // YYYY-MM-DDTHH:MM:SSZ
+    let date = &z[..10];
+    let time = &z[11..19];
+    match r.below(16) {
+        0 => format!("{}T{}", date, time),                              // no offset
+        1 => format!("{}T{}Z", date, &time[..5]),                       // no seconds
+        2 => format!("{}T{}Z", date.replace('-', ""), time.replace(':', "")), // basic format
+        3 => format!("{}T{}+0000", date, time),                         // offset without colon
+        4 => format!("{}T{}+00", date, time),                           // hour-only offset
+        5 => format!("{}T{},5Z", date, time),                           // comma decimal separator
+        6 => format!("{}T{}Z trailing", date, time),                    // trailing text
+        7 => format!(" {}T{}Z", date, time),                            // leading space
+        8 => format!("{}T{}.Z", date, time),                            // empty fraction
+        9 => format!("{}T{}+24:00", date, time),                        // offset hour out of range
+        10 => format!("{}T{}+00:60", date, time),                       // offset minute out of range
+        11 => format!("{}-13-01T{}Z", &date[..4], time),                // month 13
+        12 => format!("{}T24:00:00Z", date),                            // hour 24
+        13 => format!("{}T{}Z", &date[2..], time),                      // two-digit year
+        14 => format!("{}T{}-0100", date, time),                        // offset without colon
+        _ => format!("{}T{}ZZ", date, time),
     }
 }
 
